@@ -94,13 +94,14 @@ int main(int argc, char **argv) {
     /* strings whose hash is right for their parameters but whose salt (4 bytes) or hash (12 bytes) is shorter than the format allows: malformed */
     str_case("foreign_short_salt", "$argon2id$v=19$m=8,t=1,p=1$YWJjZA$E1wxSL/oMDAQgWmUA7t+1LTCYfZmu6BTSTUzEXBJscY", "password", 8, 1, 8);
     str_case("foreign_short_hash", "$argon2id$v=19$m=8,t=1,p=1$MDEyMzQ1Njc4OWFiY2RlZg$l+0x6AKz9jFUGavn", "password", 8, 1, 8);
-    /* a tag of 96 bytes (178 characters, longer than anything crypto_pwhash_str produces): as other implementations write them */
-    { unsigned char raw[96], salt[16]; char s64[40], h64[160], ls[300]; memcpy(salt, "0123456789abcdef", 16);
-      if (crypto_pwhash(raw, sizeof raw, "password", 8, salt, 1, 8192, crypto_pwhash_ALG_ARGON2ID13) == 0) {
-          sodium_bin2base64(s64, sizeof s64, salt, 16, sodium_base64_VARIANT_ORIGINAL_NO_PADDING); sodium_bin2base64(h64, sizeof h64, raw, sizeof raw, sodium_base64_VARIANT_ORIGINAL_NO_PADDING);
+    /* tags of 96, 257 and 300 bytes (178 .. 450 characters, longer than anything crypto_pwhash_str produces): as other implementations
+     * write them; verification has no length limit */
+    { static const size_t TL[3] = { 96, 257, 300 }; unsigned char raw[300], salt[16]; char s64[40], h64[420], ls[520], kind[64]; memcpy(salt, "0123456789abcdef", 16);
+      for (int i = 0; i < 3; i++) if (crypto_pwhash(raw, TL[i], "password", 8, salt, 1, 8192, crypto_pwhash_ALG_ARGON2ID13) == 0) {
+          sodium_bin2base64(s64, sizeof s64, salt, 16, sodium_base64_VARIANT_ORIGINAL_NO_PADDING); sodium_bin2base64(h64, sizeof h64, raw, TL[i], sodium_base64_VARIANT_ORIGINAL_NO_PADDING);
           snprintf(ls, sizeof ls, "$argon2id$v=19$m=8,t=1,p=1$%s$%s", s64, h64);
-          str_case("foreign_long_tag", ls, "password", 8, 1, 8); str_case("foreign_long_tag_wrong_pw", ls, "passwore", 8, 1, 8);
-          ls[strlen(ls) - 3] ^= 1; str_case("foreign_long_tag_altered", ls, "password", 8, 1, 8); } }
+          snprintf(kind, sizeof kind, "foreign_long_tag_%zu", TL[i]); str_case(kind, ls, "password", 8, 1, 8);
+          if (i == 0) { str_case("foreign_long_tag_wrong_pw", ls, "passwore", 8, 1, 8); ls[strlen(ls) - 3] ^= 1; str_case("foreign_long_tag_altered", ls, "password", 8, 1, 8); } } }
     str_case("foreign_p2_wrong_pw", "$argon2id$v=19$m=16,t=1,p=2$MDEyMzQ1Njc4OWFiY2RlZg$lWJkGzrKQkL7Hj9MnA4oOG4F1SwwUdMA1agUMtPMvNU", "passwore", 8, 1, 16);
     str_case("foreign_m_too_small_for_p", "$argon2id$v=19$m=15,t=1,p=2$MDEyMzQ1Njc4OWFiY2RlZg$lWJkGzrKQkL7Hj9MnA4oOG4F1SwwUdMA1agUMtPMvNU", "password", 8, 1, 15);
     /* ---- scrypt */
